@@ -128,8 +128,15 @@ var properties = map[string]Prop{
 		Parts:       []Part{{Harness: "c11"}},
 		Level:       "model_checking",
 		QuickBudget: 250, ThoroughBudget: 2400,
-		Rule: "two real Systems with remoting enabled on an in-memory network: bursts of 1-4 numbered messages with payload {0, 1, 200, 4000, 4090, 4096 (bufio boundary), 65536} bytes, two concurrent senders, both directions at once, Ask/Reply, and a 12 s idle gap (beyond the handshake deadlines) between bursts; reads return everything available (maximal coalescing, default) or one of {1, 3, 4, 5, half, all-but-one} bytes as environment choices at every Read (handshake included); every schedule up to the delay/deviation bound with switch points at messages, sends, network operations and mailbox elections; oracle: exactly once, intact, per-sender order, Sender() == original sender, every Ask gets its own reply, no decode-failed event; distinct_nontrivial = distinct delivery logs per scenario",
+		Rule:        "two real Systems with remoting enabled on an in-memory network: bursts of 1-4 numbered messages with payload {0, 1, 200, 4000, 4090, 4096 (bufio boundary), 65536} bytes, two concurrent senders, both directions at once, Ask/Reply, and a 12 s idle gap (beyond the handshake deadlines) between bursts; reads return everything available (maximal coalescing, default) or one of {1, 3, 4, 5, half, all-but-one} bytes as environment choices at every Read (handshake included); every schedule up to the delay/deviation bound with switch points at messages, sends, network operations and mailbox elections; oracle: exactly once, intact, per-sender order, Sender() == original sender, every Ask gets its own reply, no decode-failed event; distinct_nontrivial = distinct delivery logs per scenario",
 		Assumptions: append([]string{"the network is the in-memory vnet shim (net.Dial / ListenTCP / Conn with virtual deadlines); TLS listeners are not modelled", coarseAssumption}, schedAssumptions...),
+	},
+	"C14": {
+		Parts:       []Part{{Harness: "c14"}},
+		Level:       "fault_enumeration",
+		QuickBudget: 250, ThoroughBudget: 2400,
+		Rule:        "two real Systems on the in-memory network, sender A -> receiver B, retry limit in {0,1,3}: the first connection is cut after byte j of its client->server stream for every j in 0..280 (handshake + three frames; quick: every j for limit 1, every third j otherwise), two-fault runs cutting the first and the second connection on a grid of offsets, the first k in 1..5 dials refused, the peer stopped and restarted (with and without a send while it is down), and a raw client injecting between two valid frames an undecodable body / an over-limit length followed by a forged frame / an unknown message name / a corrupted envelope; each scenario explored over schedules up to the deviation bound; a case is one (fault, position, retry limit) scenario, non-trivial when a fault actually fired",
+		Assumptions: append([]string{"the network is the in-memory vnet shim: a cut makes the write that crosses the offset fail after delivering the prefix", coarseAssumption}, schedAssumptions...),
 	},
 	"C05": {
 		Parts:       []Part{{Harness: "c05"}},
